@@ -26,6 +26,9 @@ typedef struct kobj {
     unsigned char *rx; size_t rxhead, rxlen, rxalloc, rxcap;
     struct kobj *backlog[16]; int nbacklog, backlog_max;
     int listening_closed;
+    int conn_id, role;              /* role 0 = connecting side, 1 = accepted side */
+    uint64_t tx_total, rx_total;    /* bytes accepted from / delivered to this endpoint */
+    unsigned char *txlog; size_t txlog_cap;   /* every byte this endpoint handed to the kernel, in order */
 } kobj_t;
 
 typedef struct { kobj_t *k; int origin; uint32_t gen; } fdent_t;
@@ -37,6 +40,11 @@ static struct { char path[108]; kobj_t *owner; } bound_paths[MAXPATHS];
 static int nbound;
 static kobj_t *allk[4096]; static int nallk;
 uint64_t simfd_stat_cookie_reads, simfd_stat_cookie_short;
+uint64_t simfd_progress;            /* bumped on every kernel state change */
+int simfd_hard_error_t[TASK_MAX];    /* per task: last op saw EPIPE/EIO/EBADF/ENOTCONN */
+static int conn_counter;
+#define MAXCONNS 64
+static kobj_t *conn_end[MAXCONNS][2];
 
 static int is_sim(int fd) { return fd >= SIMFD_BASE && fd < SIMFD_MAX; }
 static fdent_t *ent(int fd) { return is_sim(fd) ? &fdt[task_current()][fd - SIMFD_BASE] : NULL; }
@@ -53,11 +61,13 @@ static kobj_t *knew(int type)
 
 void simfd_reset(long rxcap)
 {
-    for (int i = 0; i < nallk; i++) { free(allk[i]->data); free(allk[i]->rx); free(allk[i]); }
+    for (int i = 0; i < nallk; i++) { free(allk[i]->data); free(allk[i]->rx); free(allk[i]->txlog); free(allk[i]); }
+    memset(conn_end, 0, sizeof(conn_end));
     nallk = 0;
     memset(fdt, 0, sizeof(fdt));
     gen_counter = 0;
     nbound = 0;
+    conn_counter = 0; simfd_progress = 0; memset(simfd_hard_error_t, 0, sizeof(simfd_hard_error_t));
     default_rxcap = rxcap > 0 ? rxcap : 4096;
 }
 
@@ -88,6 +98,18 @@ uint32_t simfd_gen(int task, int fd) { fdent_t *e = ent_t(task, fd); return e &&
 size_t simfd_src_pos(int task, int fd) { fdent_t *e = ent_t(task, fd); return e && e->k ? e->k->pos : 0; }
 int simfd_peer_closed(int task, int fd) { fdent_t *e = ent_t(task, fd); return e && e->k ? e->k->peer_closed : 1; }
 size_t simfd_rx_pending(int task, int fd) { fdent_t *e = ent_t(task, fd); return e && e->k ? e->k->rxlen : 0; }
+int simfd_conn_id(int task, int fd) { fdent_t *e = ent_t(task, fd); return e && e->k && (e->k->type == KO_SOCK || e->k->type == -KO_SOCK) ? e->k->conn_id : 0; }
+int simfd_conn_role(int task, int fd) { fdent_t *e = ent_t(task, fd); return e && e->k ? e->k->role : 0; }
+uint64_t simfd_tx_total(int task, int fd) { fdent_t *e = ent_t(task, fd); return e && e->k ? e->k->tx_total : 0; }
+uint64_t simfd_rx_total(int task, int fd) { fdent_t *e = ent_t(task, fd); return e && e->k ? e->k->rx_total : 0; }
+int simfd_nonblocking(int task, int fd) { fdent_t *e = ent_t(task, fd); return e && e->k ? !!(e->k->flags & O_NONBLOCK) : 0; }
+size_t simfd_conn_txlog(int cid, int role, const unsigned char **p)
+{
+    kobj_t *k = (cid > 0 && cid < MAXCONNS) ? conn_end[cid][role & 1] : NULL;
+    if (!k) { *p = NULL; return 0; }
+    *p = k->txlog;
+    return (size_t)k->tx_total;
+}
 int simfd_open_count(int task, int min_origin)
 {
     int n = 0;
@@ -137,6 +159,7 @@ static int do_close(int task, int fd)
     k = e->k;
     e->k = NULL; e->origin = 0; e->gen = 0;
     if (--k->refs == 0) teardown(k);
+    simfd_progress++;
     return 0;
 }
 int simfd_close_harness(int task, int fd) { return do_close(task, fd); }
@@ -158,6 +181,17 @@ static int acceptable_now(void *arg)
     return k->nbacklog > 0 || k->type < 0;
 }
 
+static int progressed(void *arg) { return simfd_progress != *(uint64_t *)arg; }
+/* natural EAGAIN on a non-blocking descriptor: the caller will retry, so park the task until any kernel
+ * state changes (equivalent to the scheduler not picking it while nothing can change) */
+static void wait_for_progress(void)
+{
+    static uint64_t snap[TASK_MAX];
+    uint64_t *p = &snap[task_current()];
+    *p = simfd_progress;
+    if (task_active()) task_block(progressed, p, -1);
+}
+
 ssize_t sim_read(int fd, void *buf, size_t n)
 {
     fdent_t *e;
@@ -177,7 +211,7 @@ ssize_t sim_read(int fd, void *buf, size_t n)
     if (out == FO_EAGAIN && !(k->flags & O_NONBLOCK)) out = FO_FULL;
     if (out == FO_EINTR) { fault_fired(FC_READ, FO_EINTR); tr_printf("read fd%d -> EINTR", fd); errno = EINTR; return -1; }
     if (out == FO_EAGAIN) { fault_fired(FC_READ, FO_EAGAIN); tr_printf("read fd%d -> EAGAIN", fd); errno = EAGAIN; return -1; }
-    if (out == FO_EIO) { fault_fired(FC_READ, FO_EIO); tr_printf("read fd%d -> EIO", fd); errno = EIO; return -1; }
+    if (out == FO_EIO) { fault_fired(FC_READ, FO_EIO); simfd_hard_error_t[task_current()] = 1; tr_printf("read fd%d -> EIO", fd); errno = EIO; return -1; }
     if (k->type == KO_SRC || k->type == KO_FILE) {
         avail = k->len - k->pos;
         take = n < avail ? n : avail;
@@ -212,7 +246,7 @@ ssize_t sim_read(int fd, void *buf, size_t n)
         if (lim < take) { take = lim; fault_fired(FC_READ, FO_SHORT); }
     }
     memcpy(buf, k->rx + k->rxhead, take);
-    k->rxhead += take; k->rxlen -= take;
+    k->rxhead += take; k->rxlen -= take; k->rx_total += take; simfd_progress++;
     if (k->rxlen == 0) k->rxhead = 0;
     tr_printf("read fd%d n=%zu -> %zu", fd, n, take);
     return (ssize_t)take;
@@ -242,22 +276,28 @@ ssize_t sim_write(int fd, const void *buf, size_t n)
     sim_step();
     task_yield();
     e = ent(fd);
-    if (!e || !e->k) { errno = EBADF; tr_printf("write fd%d -> EBADF", fd); return -1; }
+    if (!e || !e->k) { errno = EBADF; simfd_hard_error_t[task_current()] = 1; tr_printf("write fd%d -> EBADF", fd); return -1; }
     k = e->k;
-    if (k->type != KO_SOCK) { errno = k->type == KO_RAWSOCK ? ENOTCONN : EINVAL; tr_printf("write fd%d -> ENOTCONN", fd); return -1; }
+    if (k->type != KO_SOCK) { errno = k->type == KO_RAWSOCK ? ENOTCONN : EINVAL; simfd_hard_error_t[task_current()] = 1; tr_printf("write fd%d -> ENOTCONN", fd); return -1; }
     f = fault_next(FC_WRITE);
     out = f < 0 ? FO_FULL : F_OUT(f);
     if (out == FO_EAGAIN && !(k->flags & O_NONBLOCK)) out = FO_FULL;
     if (out == FO_EINTR) { fault_fired(FC_WRITE, FO_EINTR); tr_printf("write fd%d -> EINTR", fd); errno = EINTR; return -1; }
     if (out == FO_EAGAIN) { fault_fired(FC_WRITE, FO_EAGAIN); tr_printf("write fd%d -> EAGAIN", fd); errno = EAGAIN; return -1; }
-    if (out == FO_EIO) { fault_fired(FC_WRITE, FO_EIO); tr_printf("write fd%d -> EIO", fd); errno = EIO; return -1; }
-    if (k->peer_closed || !k->peer) { fault_fired(FC_WRITE, FO_EPIPE); tr_printf("write fd%d -> EPIPE", fd); errno = EPIPE; return -1; }
+    if (out == FO_EIO) { fault_fired(FC_WRITE, FO_EIO); simfd_hard_error_t[task_current()] = 1; tr_printf("write fd%d -> EIO", fd); errno = EIO; return -1; }
+    if (k->peer_closed || !k->peer) { fault_fired(FC_WRITE, FO_EPIPE); simfd_hard_error_t[task_current()] = 1; tr_printf("write fd%d -> EPIPE", fd); errno = EPIPE; return -1; }
     space = k->peer->rxcap > k->peer->rxlen ? k->peer->rxcap - k->peer->rxlen : 0;
     if (space == 0) {
-        if (k->flags & O_NONBLOCK) { fault_fired(FC_WRITE, FO_EAGAIN); tr_printf("write fd%d -> EAGAIN(full)", fd); errno = EAGAIN; return -1; }
+        if (k->flags & O_NONBLOCK) {
+            fault_fired(FC_WRITE, FO_EAGAIN); probe_hit("natural_eagain_on_write");
+            tr_printf("write fd%d -> EAGAIN(full)", fd);
+            wait_for_progress();
+            errno = EAGAIN;
+            return -1;
+        }
         task_block(writable_now, k, -1);
-        if (!e->k || e->k != k) { errno = EBADF; return -1; }
-        if (k->peer_closed || !k->peer) { errno = EPIPE; tr_printf("write fd%d -> EPIPE", fd); return -1; }
+        if (!e->k || e->k != k) { errno = EBADF; simfd_hard_error_t[task_current()] = 1; return -1; }
+        if (k->peer_closed || !k->peer) { errno = EPIPE; simfd_hard_error_t[task_current()] = 1; tr_printf("write fd%d -> EPIPE", fd); return -1; }
         space = k->peer->rxcap - k->peer->rxlen;
     }
     take = n < space ? n : space;
@@ -268,6 +308,9 @@ ssize_t sim_write(int fd, const void *buf, size_t n)
     }
     if (take < n) fault_fired(FC_WRITE, FO_SHORT);
     rx_push(k->peer, buf, take);
+    if (k->tx_total + take > k->txlog_cap) { k->txlog_cap = (k->tx_total + take) * 2 + 256; k->txlog = realloc(k->txlog, k->txlog_cap); }
+    memcpy(k->txlog + k->tx_total, buf, take);
+    k->tx_total += take; simfd_progress++;
     tr_printf("write fd%d n=%zu -> %zu", fd, n, take);
     return (ssize_t)take;
 }
@@ -338,7 +381,7 @@ int sim_fcntl(int fd, int cmd, ...)
     e = ent(fd);
     if (!e || !e->k) { errno = EBADF; return -1; }
     if (cmd == F_GETFL) return e->k->flags | O_RDWR;
-    if (cmd == F_SETFL) { e->k->flags = (int)arg & (O_NONBLOCK | O_APPEND); tr_printf("fcntl fd%d nonblock=%d", fd, !!(arg & O_NONBLOCK)); return 0; }
+    if (cmd == F_SETFL) { simfd_progress++; e->k->flags = (int)arg & (O_NONBLOCK | O_APPEND); tr_printf("fcntl fd%d nonblock=%d", fd, !!(arg & O_NONBLOCK)); return 0; }
     if (cmd == F_GETFD || cmd == F_SETFD) return 0;
     errno = EINVAL;
     return -1;
@@ -372,7 +415,7 @@ int sim_bind(int fd, const struct sockaddr *addr, socklen_t len)
     snprintf(bound_paths[nbound].path, 108, "%.107s", un->sun_path);
     bound_paths[nbound++].owner = e->k;
     snprintf(e->k->path, 108, "%.107s", un->sun_path);
-    e->k->bound = 1;
+    e->k->bound = 1; simfd_progress++;
     tr_printf("bind fd%d %s", fd, e->k->path);
     return 0;
 }
@@ -385,7 +428,7 @@ int sim_listen(int fd, int n)
     if (e->k->type != KO_RAWSOCK && e->k->type != KO_LISTENER) { errno = EOPNOTSUPP; return -1; }
     if (!e->k->bound) { errno = EINVAL; return -1; }      /* AF_UNIX: listen on an unbound socket fails */
     e->k->type = KO_LISTENER;
-    e->k->backlog_max = n < 1 ? 1 : n > 15 ? 15 : n;
+    e->k->backlog_max = n < 1 ? 1 : n > 15 ? 15 : n; simfd_progress++;
     tr_printf("listen fd%d", fd);
     return 0;
 }
@@ -414,6 +457,8 @@ int sim_connect(int fd, const struct sockaddr *addr, socklen_t len)
     srv = knew(KO_SOCK);
     srv->peer = k; k->peer = srv;
     k->type = KO_SOCK;
+    k->conn_id = srv->conn_id = ++conn_counter; k->role = 0; srv->role = 1; simfd_progress++;
+    if (conn_counter < MAXCONNS) { conn_end[conn_counter][0] = k; conn_end[conn_counter][1] = srv; }
     l->backlog[l->nbacklog++] = srv;
     tr_printf("connect fd%d -> ok", fd);
     return 0;
@@ -440,7 +485,13 @@ int sim_accept(int fd, struct sockaddr *addr, socklen_t *len)
         return -1;
     }
     if (l->nbacklog == 0) {
-        if (l->flags & O_NONBLOCK) { tr_printf("accept fd%d -> EAGAIN(empty)", fd); errno = EAGAIN; return -1; }
+        if (l->flags & O_NONBLOCK) {
+            probe_hit("natural_eagain_on_accept");
+            tr_printf("accept fd%d -> EAGAIN(empty)", fd);
+            wait_for_progress();
+            errno = EAGAIN;
+            return -1;
+        }
         task_block(acceptable_now, l, -1);
         if (l->type != KO_LISTENER || !e->k) { errno = EBADF; return -1; }
     }
@@ -451,12 +502,13 @@ int sim_accept(int fd, struct sockaddr *addr, socklen_t *len)
         /* the pending connection is dropped; the client sees a reset */
         fault_fired(FC_ACCEPT, out);
         if (srv->peer) { srv->peer->peer_closed = 1; srv->peer->peer = NULL; }
-        srv->peer = NULL; srv->type = -KO_SOCK;
+        srv->peer = NULL; srv->type = -KO_SOCK; simfd_progress++;
         tr_printf("accept fd%d -> ECONNABORTED", fd);
         errno = ECONNABORTED;
         return -1;
     }
     nfd = fd_alloc(task_current(), srv, ORG_ACCEPT);
+    simfd_progress++;
     if (addr && len && *len >= sizeof(sa_family_t)) {
         /* unbound AF_UNIX peer: the kernel returns only the family */
         addr->sa_family = AF_UNIX;
